@@ -221,9 +221,32 @@ def run(ctx):
     mod_fns = [f for f in mod_fns if "::tests::" not in f.path and not f.j.get("derived")]
     bad = []
     for f in mod_fns:
+        # a count read only to assert an invariant in debug builds decides nothing (lines of calls inside a debug_assert!)
+        dbg_lines = set()
+        root_ = f
+        while getattr(root_, "parent", None) is not None:
+            root_ = root_.parent
+        for hf in {id(f): f, id(root_): root_}.values():
+            if hf.hir:
+                from facts import walk as _hw
+
+                for n_ in _hw(hf.hir):
+                    if n_.get("k") == "If" and "debug_assert" in str(n_.get("exp") or ""):
+                        dbg_lines |= {x.get("ln") for x in _hw(n_) if x.get("k") in ("Call", "MethodCall")}
+        # helpers spliced into f keep their own typed tree
+        for pth in getattr(f, "inlined", ()) or ():
+            hf = (getattr(u, "raw_by_path", None) or {}).get(pth)
+            if hf is not None and hf.j.get("hir"):
+                from facts import walk as _hw
+
+                for n_ in _hw(hf.j["hir"]):
+                    if n_.get("k") == "If" and "debug_assert" in str(n_.get("exp") or ""):
+                        dbg_lines |= {x.get("ln") for x in _hw(n_) if x.get("k") in ("Call", "MethodCall")}
         for c in f.body.calls():
             n = callee_method_name(c)
             r = c.resolved or ""
+            if n in ("strong_count", "weak_count") and c.line in dbg_lines:
+                continue
             if n in ("strong_count", "weak_count", "as_ptr", "into_raw", "from_raw", "increment_strong_count", "decrement_strong_count", "get_mut_unchecked") and ("sync::Arc" in r or "sync::Weak" in r):
                 bad.append(f"{f.name}: {n}")
             if n == "clone" and "Arc<" in (c.t.get("self_ty") or "") + r and "sync::Arc" in r:
